@@ -94,7 +94,8 @@ def real_dense(r) -> List[Any]:
 def tolerances(sr, dtype):
     if dtype == "float32":
         return (1e-3, 1e-4)
-    return (1e-6, 1e-9 if sr == "Log" else 0.0)
+    # Real/float64: an entry whose exact value is 0 may come out of the LU shortcut as rounding noise (~1e-16)
+    return (1e-6, 1e-9 if sr == "Log" else (1e-12 if sr == "Real" else 0.0))
 
 
 # ============================================================================= exact oracle
